@@ -629,6 +629,17 @@ def r12_ctor_eta(text):
 
 
 # ---------------------------------------------------------------- R13 `for x in &E {`
+def r13b_for_map(text, idents=()):
+    """`for PAT in IDENT {` with IDENT listed in `for_map_idents` (an owned std map) -> `for PAT in into_pairs(IDENT) {`
+    (`into_pairs` = assumed contract of the map's `into_iter`: every pair exactly once, unspecified order)."""
+    m = mask(text)
+    eds = []
+    for idn in idents:
+        for mt in re.finditer(r"(?<![A-Za-z0-9_])for\s[^;]*?\sin\s+(%s)\s*\{" % re.escape(idn), m):
+            eds.append(Edit(mt.start(1), mt.end(1), "into_pairs(%s)" % idn, "R13"))
+    return eds
+
+
 def r13_for_ref(text, idents=()):
     """`for x in &E {` -> `for x in E.iter() {` ; also `for x in ident {` for the identifiers listed in
     unit.toml (`r13_idents`: parameters/locals of reference-to-collection type)."""
@@ -1154,7 +1165,7 @@ def apply_rewrites(text, enabled, opts=None):
             elif rid == "R10":
                 eds = fn(cur, opts.get("r10_only"))
             elif rid == "R13":
-                eds = fn(cur, opts.get("r13_idents", ()))
+                eds = fn(cur, opts.get("r13_idents", ())) + r13b_for_map(cur, opts.get("for_map_idents", ()))
             elif rid == "R16":
                 eds = fn(cur, opts.get("r16_only"))
             elif rid == "R18":
